@@ -13,6 +13,8 @@ C07 mask fwd|bwd [E] [t] [w]        -> ok [E'] pin pout  Apodizer / any phase-on
                                                          before / after **with the input weights** (complex lists are flat re,im,…)
 C07 fibre [E] [m] [w]               -> ok [a] pin mnorm [back]   a = Σ conj(E) w m, Σ|E|²w, Σ|m|²w, power of a·m
 C07 knife N M start [mask] [apod] [lyot] [x] -> ok [row']  lyot·crop(ifft(fft(pad(x·apod))·mask)), M ∣ 4 (Gaussian kernels)
+C07 knifet N M start [ker] [mask] [apod] [lyot] [x] -> ok [row']  the same `knifeRow` for any M > 0, the forward kernel
+                                                         `exp(-2πi k/M)`, k < M, supplied as a table (backward kernel = its conjugate)
 ```
 -/
 namespace HcipyVerif.Driver.C07
@@ -26,6 +28,8 @@ def cxList? : List Rat → Option (List (Cx Rat))
 def cxFn (l : List (Cx Rat)) : Nat → Cx Rat := fun i => l.getD i ⟨0, 0⟩
 def ratFn (l : List Rat) : Nat → Rat := fun i => l.getD i 0
 def flat (f : Nat → Cx Rat) (n : Nat) : List Rat := (List.range n).flatMap fun i => [(f i).re, (f i).im]
+/-- a kernel `ℤ → ℂ` of period `M` read from a table of `M` values -/
+def tableKer (l : List (Cx Rat)) (M : Nat) (n : Int) : Cx Rat := l.getD ((n % (M : Int)).toNat) ⟨0, 0⟩
 def parseCx? (s : String) : Option (List (Cx Rat)) := (parseRatList? s).bind cxList?
 
 structure St where
@@ -73,6 +77,14 @@ def step (st : St) : List String → St × String
       let row := knifeRow n m s (gaussKerF m) (gaussKerB m) ⟨1 / (m : Rat), 0⟩ (cxFn mask) xin
       (st, "ok " ++ showRatList (flat (fun j => cxFn lyot j * row j) n))
     | _, _, _, _, _, _, _ => (st, "bad-op")
+  | ["knifet", nn, mm, start, ker, mask, apod, lyot, x] =>
+    match parseNat? nn, parseNat? mm, parseNat? start, parseCx? ker, parseCx? mask, parseCx? apod, parseCx? lyot, parseCx? x with
+    | some n, some m, some s, some ker, some mask, some apod, some lyot, some x =>
+      if m = 0 ∨ s + n > m ∨ ker.length ≠ m ∨ mask.length ≠ m ∨ apod.length ≠ n ∨ lyot.length ≠ n ∨ x.length ≠ n then (st, "bad-op") else
+      let xin : Nat → Cx Rat := fun i => cxFn x i * cxFn apod i
+      let row := knifeRow n m s (tableKer ker m) (fun k => (tableKer ker m k).conj) ⟨1 / (m : Rat), 0⟩ (cxFn mask) xin
+      (st, "ok " ++ showRatList (flat (fun j => cxFn lyot j * row j) n))
+    | _, _, _, _, _, _, _, _ => (st, "bad-op")
   | _ => (st, "bad-op")
 
 end HcipyVerif.Driver.C07
